@@ -269,6 +269,8 @@ def run_queries(tree, ts, q, discrete, want_arrays):
                     "flags": [int(x) for x in ts.nodes_flags],
                 }
                 obs["root_parent"] = int(tree.parent(r))
+                obs["samples"] = [int(u) for u in ts.samples()]
+                obs["rs"] = [int(x) for x in tree.right_sib_array]
                 obs["num_samples"] = int(ts.num_samples)
                 obs["num_edges"] = int(tree.num_edges)
                 # branch tokens by the implementation's own number rendering (the same format
@@ -424,10 +426,13 @@ def coq_newick_term(q, obs, discrete, N):
                 fast = "(Some (FastOverflow %s))" % cz(obs["fast_bufsize"])
         else:
             fast = "(Some (FastOk %s %s))" % (cz(obs["fast_bufsize"]), cstr(f))
+    rose = crose(r, kids)
     return ("(let a := mk_ctree %s %s %s %s %s in c18_check_size_bound a %s %s && "
+            "c18_check_default_dict a %s %s && c18_check_children a %s %s && "
             "c18_check_newick a %s %s %s %s %s %s %s %s %s %s %s)"
             % (clist(a["lc"]), clist(a["rc"]), clist(a["ls"]), clist(a["par"]), clist(a["flags"]),
                cz(obs["num_samples"]), cz(obs["num_edges"]),
+               rose, clist(obs["samples"]), clist(obs["rs"]), rose,
                cz(N), crose(r, kids), cz(obs["root_parent"]), toks, labs, "true" if ibl else "false",
                cz(p), fast, cstr(obs["general"]), cz(obs["W"]), cout(q, obs)))
 
@@ -1175,6 +1180,11 @@ class Fasta(Family):
         try:
             obs["alignments"] = list(ts.alignments(reference_sequence=opts["reference_sequence"],
                                                    missing_data_character=opts["missing_data_character"]))
+            # the per-site characters (C03) the model's alignments() fill starts from
+            mdc = "N" if opts["missing_data_character"] is None else opts["missing_data_character"]
+            obs["haplotypes"] = list(ts.haplotypes(missing_data_character=mdc))
+            obs["site_pos"] = [int(p) for p in ts.sites_position]
+            obs["L"] = int(ts.sequence_length)
         except Exception as e:
             obs["alignments"] = err_obs(e)
         return obs
@@ -1235,7 +1245,16 @@ class Fasta(Family):
             return None
         w = int(case["opts"].get("wrap_width", 60))
         recs = "[%s]" % "; ".join("(%s, %s)" % (cz(u), cstr(a)) for u, a in zip(obs["samples"], al))
-        return "c18_check_fasta %s %s %s" % (cz(w), recs, clist(list(text.encode("ascii")), cz))
+        term = "c18_check_fasta %s %s %s" % (cz(w), recs, clist(list(text.encode("ascii")), cz))
+        if isinstance(obs.get("haplotypes"), list):
+            opts = case["opts"]
+            ref = opts["reference_sequence"]
+            mdc = "N" if opts["missing_data_character"] is None else opts["missing_data_character"]
+            term += (" && c18_check_alignments %s %s %s %s [%s] [%s]"
+                     % (cz(obs["L"]), "None" if ref is None else "(Some %s)" % cstr(ref), cz(ord(mdc)),
+                        clist(obs["site_pos"]), "; ".join(cstr(h) for h in obs["haplotypes"]),
+                        "; ".join(cstr(a) for a in al)))
+        return term
 
     def nontrivial(self, case, obs):
         return isinstance(obs["text"], str) and len(obs["text"]) > 10
@@ -1463,7 +1482,7 @@ class NewickArgs(Family):
     workers = 4
 
     def generate(self, rng, tier):
-        for _ in range(60 if tier == "quick" else 600):
+        for _ in range(90 if tier == "quick" else 900):
             tc = make_tree_case(rng, rng.choice([1, 2, 3, 5, 9]), scheme="int")
             q = make_query(rng, tc)
             q["root"] = tc["n"] + rng.choice([-tc["n"] - 1, -tc["n"] - 4, 0, 0, 1, 7])
@@ -1492,7 +1511,47 @@ class NewickArgs(Family):
         n, root = case["tree"]["n"], case["q"]["root"]
         o = obs["out"]
         if root == n:
-            return []           # the virtual root: not a node, not covered by the property
+            # the virtual root is not a node (outside the property); what each path does, exactly:
+            # fast path (C writer): TSK_ERR_NODE_OUT_OF_BOUNDS; general path: children(virtual_root)
+            # = tree.roots, each hanging on a branch of length 0, no label unless the dict has key N
+            tc, q = case["tree"], case["q"]
+            ibl = True if q["ibl"] is None else q["ibl"]
+            fast = ibl and q["labels"] in ("default", "ms")
+            if q["precision"] is not None and q["precision"] < 0:
+                return []
+            if fast:
+                if not (isinstance(o, dict) and o["err"] == "LibraryError" and "out of bounds" in o["msg"].lower()):
+                    return [("newick-args:virtual-root-fast-path", "expected TSK_ERR_NODE_OUT_OF_BOUNDS, got %r" % (str(o)[:80],))]
+                return []
+            if isinstance(o, dict):
+                return [("newick-args:virtual-root-general-path", "%s: %s" % (o["err"], o["msg"]))]
+            parent, flags, times = list(tc["parent"]) + [NULL], list(tc["flags"]) + [0], list(tc["times"]) + [0.0]
+            rs = roots_of(tc["parent"], tc["flags"])
+            if not rs:
+                return [] if o == ";" or o.endswith(";") else [("newick-args:virtual-root-general-path", o[:60])]
+            ch = children_of(tc["parent"]) + [rs]
+            p = q["precision"] if q["precision"] is not None else (0 if all(is_int(t) for t in tc["times"]) else 17)
+            lab = q["labels"]
+            if lab == "default":
+                label = lambda u: ("n%d" % u) if flags[u] & 1 else ""
+            elif lab == "ms":
+                label = lambda u: ("%d" % (u + 1)) if not ch[u] else ""
+            else:
+                d = {int(k): v for k, v in lab}
+                label = lambda u: d.get(u, "")
+            def token(u):
+                if not ibl:
+                    return None
+                return fmt_fixed(0.0 if tc["parent"][u] == NULL else tc["times"][tc["parent"][u]] - tc["times"][u], p)
+            it = Interner()
+            want = it.of_expected(n, ch, label, token)
+            try:
+                got = it.of_parsed(parse_newick(o))
+            except NewickError as e:
+                return [("newick-args:virtual-root-general-path", "unparsable: %s" % e)]
+            if got != want:
+                return [("newick-args:virtual-root-general-path", "forest string %r is not the roots under an unlabelled node" % o[:120])]
+            return []
         if not isinstance(o, dict):
             return [("newick-args:bad-root-accepted", "root=%d (N=%d) gave %r" % (root, n, o[:60]))]
         return []
